@@ -171,7 +171,7 @@ func init() {
 	// ---------------------------------------------------------- blocks
 	byz := HSpec{Pkg: minterPkg, Func: "VerifHarness_Block_ByzantineAndMaturity", Configs: []map[string]int64{cfg("evidence", 1), cfg("evidence", 0)},
 		Bounds: "one BeginBlock at height 1000: byzantine evidence against validator P (or none), 5 frozen items (2 maturing now, one of them a pending move), all amounts unbounded positive integers"}
-	endAcc := HSpec{Pkg: minterPkg, Func: "VerifHarness_Block_EndAccumulate", Configs: []map[string]int64{cfg("statuses", 1), cfg("statuses", 0, "atCap", 1)},
+	endAcc := HSpec{Pkg: minterPkg, Func: "VerifHarness_Block_EndAccumulate", Configs: []map[string]int64{cfg("statuses", 1), cfg("statuses", 0, "atCap", 1), cfg("statuses", 1, "toDrop", 1)},
 		Bounds: "one EndBlock at a non-payout height, 2 validators with every present/absent/missing status, reward, safe reward, fees, stakes symbolic"}
 	endAccT := HSpec{Pkg: minterPkg, Func: "VerifHarness_Block_EndAccumulate", Configs: []map[string]int64{cfg("statuses", 1, "atCap", 1)}, Bounds: "as above at the emission cap"}
 	payByz := HSpec{Pkg: minterPkg, Func: "VerifHarness_Block_EndPayout", Configs: []map[string]int64{cfg("evidence", 1)}, Opts: gosym.HarnessOpts{MaxPaths: 400},
